@@ -2344,7 +2344,7 @@ def namespace_reuse_guard(repo, run, rule):
                 G = e.args[1].text
                 reused = G.startswith('sys.modules[')
                 pers = [pol for t, pol in e.facts if t.endswith('.persistent_namespace')]
-                present = [pol for t, pol in e.facts if ' in sys.modules' in t]
+                present = [(not pol) if ' not in sys.modules' in t else pol for t, pol in e.facts if ' in sys.modules' in t]
                 n += 1
                 if reused and not (pers and pers[0] and present and present[0]):
                     bad.add('the namespace is taken from sys.modules on a path where the node is not known to be persistent with its module present (facts: %s)' % [t for t, _ in e.facts][:3])
